@@ -4,8 +4,13 @@
    written to the file with that id": it agrees with every existing file, only grows by appending,
    and is kept for removed files (ids are never reused).  Every pointer of a live table, of the index
    and of an open reader's table set frames its value in G; live and index pointers moreover name an
-   existing file; every block-cache entry frames its value in G.  Framing at one offset of one byte
-   string is unique, which makes the cache coherent. *)
+   existing file; every block-cache entry frames its value in G and carries the checksum of that frame.
+   Framing at one offset of one byte string is unique, which makes the cache coherent (and, under the
+   checked rule of VLog::get, makes every hit for an issued pointer pass the test).
+
+   Part D (damage, property C16) needs no invariant on the files: the only fact is cache_sound — every cache
+   entry's checksum is the checksum of its value under some key — which vs_get itself maintains at level Full
+   whatever the files hold. *)
 From Coq Require Import List NArith Arith Bool Lia.
 From SKV Require Import Params Codec.VlogParams Codec.Wal Codec.VlogPtr Codec.VlogPtrSpec Codec.VlogPtr_proofs Lsm.Vlog Lsm.VlogSpec.
 Import ListNotations.
@@ -224,6 +229,7 @@ Section Proofs.
 Variable crc : list byte -> N.
 Variable cfg : vcfg.
 Variable chk : bool.
+Variable hck : bool.
 Hypothesis POK : vlog_params_ok = true.
 
 (* ------------------------------------------------------------------------------ framing *)
@@ -312,7 +318,8 @@ Record dinv (G : N -> list byte) (st : vstate) : Prop := {
              tb_oldest t = table_oldest (tb_entries t) /\ forall e, In e (tb_entries t) -> entry_good (live_ptr G st) e;
   i_index : forall e, In e (vs_index st) -> entry_good (live_ptr G st) e;
   i_readers : forall rid ts t e, In (rid, ts) (vs_readers st) -> In t ts -> In e (tb_entries t) -> entry_good (rptr G st) e;
-  i_cache : forall f o v, In ((f, o), v) (vs_cache st) -> f <= vs_active st /\ exists k, framed (G f) o k v }.
+  i_cache : forall f o c v, In ((f, o), (c, v)) (vs_cache st) ->
+            f <= vs_active st /\ exists k, framed (G f) o k v /\ c = crc32u crc (k ++ v) }.
 Definition vinvG (G : N -> list byte) (st : vstate) : Prop := finv G st /\ dinv G st.
 
 Lemma entry_good_mono : forall (P Q : vpointer -> list byte -> Prop) e,
@@ -367,8 +374,8 @@ Proof.
   - rewrite Ei. intros e Hin. apply (entry_good_mono _ _ _ L). apply Di. exact Hin.
   - rewrite Er. intros rid ts t e H1 H2 H3. apply (entry_good_mono (rptr G st)); [|apply (Dr rid ts t e H1 H2 H3)].
     intros p v [Hp Hcf]. split; [apply (pin_ext _ _ _ _ _ _ Hg Ha Hp) | intros Ek; apply Hh; apply Hcf; exact Ek].
-  - rewrite Ec. intros f o v Hin. destruct (Dc f o v Hin) as [Hf [k Hk]]. split; [lia|].
-    destruct (Hg _ Hf) as [more E]. exists k. rewrite E. apply framed_app. exact Hk.
+  - rewrite Ec. intros f o c v Hin. destruct (Dc f o c v Hin) as [Hf [k [Hk Hc]]]. split; [lia|].
+    destruct (Hg _ Hf) as [more E]. exists k. split; [rewrite E; apply framed_app; exact Hk | exact Hc].
 Qed.
 
 (* ------------------------------------------------------------------------------ file list helpers *)
@@ -717,7 +724,7 @@ Proof.
     + intros e Hin. apply (entry_good_mono _ _ _ L). apply Hi. exact Hin.
     + intros rid ts t e H1 H2 H3. apply (entry_good_mono (rptr G st)); [|apply (Hr rid ts t e H1 H2 H3)].
       intros p v [Hp Hcf]. split; [rewrite Ea; exact Hp|]. intros Ek. destruct (Hcf Ek) as (f & Hf & Hid). exists f. rewrite Ef. split; assumption.
-    + rewrite Ea. intros f o v Hin. apply Dc. apply Hc. exact Hin.
+    + rewrite Ea. intros f o c v Hin. apply Dc. apply Hc. exact Hin.
 Qed.
 
 Lemma live_pin : forall G st p v, live_ptr G st p v -> pin G (vs_active st) p v.
@@ -852,40 +859,64 @@ Proof.
 Qed.
 
 (* ------------------------------------------------------------------------------ reads *)
-Lemma vcache_get_in : forall c f o v, vcache_get c f o = Some v -> In ((f, o), v) c.
+Lemma vcache_get_in : forall c f o e, vcache_get c f o = Some e -> In ((f, o), e) c.
 Proof.
-  intros c f o v H. unfold vcache_get in H.
-  destruct (find (fun e => N.eqb (fst (fst e)) f && N.eqb (snd (fst e)) o) c) as [[[f0 o0] v0]|] eqn:F; [|discriminate].
-  injection H as H. subst v0. destruct (find_some _ _ F) as [Hin Hb]. cbn [fst snd] in Hb.
+  intros c f o e H. unfold vcache_get in H.
+  destruct (find (fun e0 => N.eqb (fst (fst e0)) f && N.eqb (snd (fst e0)) o) c) as [[[f0 o0] e0]|] eqn:F; [|discriminate].
+  injection H as H. subst e0. destruct (find_some _ _ F) as [Hin Hb]. cbn [fst snd] in Hb.
   apply andb_true_iff in Hb. destruct Hb as [H1 H2]. apply N.eqb_eq in H1. apply N.eqb_eq in H2. subst. exact Hin.
 Qed.
 
-(* what a read of an issued pointer gives: the value, or nothing when the file is gone; never other bytes *)
-Lemma get_spec : forall G st p v, vinvG G st -> pin G (vs_active st) p v ->
-  (fst (vs_get crc cfg st p) = Some v \/ (fst (vs_get crc cfg st p) = None /\ ~ has_file st (vpt_file p))) /\
-  (forall f o w, In ((f, o), w) (snd (vs_get crc cfg st p)) -> f <= vs_active st /\ exists k, framed (G f) o k w).
+Definition cache_framed (G : N -> list byte) (a : N) (c : vcache) : Prop :=
+  forall f o x w, In ((f, o), (x, w)) c -> f <= a /\ exists k, framed (G f) o k w /\ x = crc32u crc (k ++ w).
+
+(* the file path of a read of an issued pointer: the value, or nothing when the file is gone *)
+Lemma get_file_spec : forall G st p v, vinvG G st -> pin G (vs_active st) p v ->
+  (fst (vs_get_file crc cfg st p) = Some v \/ (fst (vs_get_file crc cfg st p) = None /\ ~ has_file st (vpt_file p))) /\
+  cache_framed G (vs_active st) (snd (vs_get_file crc cfg st p)).
 Proof.
-  intros G st p v [[F1 F2 F3 F4 F5] [Dt Di Dr Dc]] [Hle Hpf]. unfold vs_get.
-  destruct (vcache_get (vs_cache st) (vpt_file p) (vpt_offset p)) as [vc|] eqn:Ec.
-  - cbn [fst snd]. split; [|exact Dc]. left.
-    destruct (Dc _ _ _ (vcache_get_in _ _ _ _ Ec)) as [_ [k Hk]].
-    rewrite (pframed_framed_value _ _ _ _ _ Hpf Hk). reflexivity.
-  - destruct (find_file (vpt_file p) (vs_files st)) as [fl|] eqn:Ff.
-    + destruct (find_file_some _ _ _ Ff) as [Hin Hid].
-      assert (Hb : pframed (vf_bytes fl) p v) by (rewrite <- (F5 fl Hin), Hid; exact Hpf).
-      rewrite (pframed_read (cf_level cfg) _ _ _ Hb). cbn [fst snd]. split; [left; reflexivity|].
-      intros f o w [E|Hin']; [|apply Dc; exact Hin'].
-      injection E as E1 E2 E3. subst f o w. split; [exact Hle|].
-      destruct Hpf as (k & Hk & _). exists k. exact Hk.
-    + cbn [fst snd]. split; [|exact Dc]. right. split; [reflexivity|].
-      intros (f & Hin & Hid). destruct (find_file_has _ _ _ Hin Hid) as [f' E]. rewrite E in Ff. discriminate.
+  intros G st p v [[F1 F2 F3 F4 F5] [Dt Di Dr Dc]] [Hle Hpf]. unfold vs_get_file.
+  destruct (find_file (vpt_file p) (vs_files st)) as [fl|] eqn:Ff.
+  - destruct (find_file_some _ _ _ Ff) as [Hin Hid].
+    assert (Hb : pframed (vf_bytes fl) p v) by (rewrite <- (F5 fl Hin), Hid; exact Hpf).
+    rewrite (pframed_read (cf_level cfg) _ _ _ Hb). cbn [fst snd]. split; [left; reflexivity|].
+    intros f o x w [E|Hin']; [|apply Dc; exact Hin'].
+    injection E as E1 E2 E3 E4. subst f o x w. split; [exact Hle|].
+    destruct Hpf as (k & Hk & _ & _ & Hcrc). exists k. split; [exact Hk | exact Hcrc].
+  - cbn [fst snd]. split; [|exact Dc]. right. split; [reflexivity|].
+    intros (f & Hin & Hid). destruct (find_file_has _ _ _ Hin Hid) as [f' E]. rewrite E in Ff. discriminate.
+Qed.
+
+(* what a read of an issued pointer gives: the value, or nothing when the file is gone; never other bytes — under
+   either cache rule: a hit is the framed value (framing is unique), a refused hit goes to the file *)
+Lemma get_spec : forall G st p v, vinvG G st -> pin G (vs_active st) p v ->
+  (fst (vs_get crc cfg hck st p) = Some v \/ (fst (vs_get crc cfg hck st p) = None /\ ~ has_file st (vpt_file p))) /\
+  cache_framed G (vs_active st) (snd (vs_get crc cfg hck st p)).
+Proof.
+  intros G st p v Hinv Hpin. pose proof (i_cache G st (proj2 Hinv)) as Dc. unfold vs_get.
+  destruct (vcache_get (vs_cache st) (vpt_file p) (vpt_offset p)) as [[x w]|] eqn:Ec; [|apply (get_file_spec G st p v Hinv Hpin)].
+  destruct (vs_hit_ok hck p (x, w)); [|apply (get_file_spec G st p v Hinv Hpin)].
+  cbn [fst snd]. split; [|exact Dc]. left.
+  destruct (Dc _ _ _ _ (vcache_get_in _ _ _ _ Ec)) as [_ [k [Hk _]]]. destruct Hpin as [_ Hpf].
+  rewrite (pframed_framed_value _ _ _ _ _ Hpf Hk). reflexivity.
+Qed.
+
+(* ... and under the checked rule a hit found for an issued pointer passes the test: the cache stays effective *)
+Lemma hit_passes : forall G st p v e, vinvG G st -> pin G (vs_active st) p v ->
+  vcache_get (vs_cache st) (vpt_file p) (vpt_offset p) = Some e -> vs_hit_ok hck p e = true.
+Proof.
+  intros G st p v [x w] Hinv [_ Hpf] Ec. pose proof (i_cache G st (proj2 Hinv)) as Dc.
+  destruct (Dc _ _ _ _ (vcache_get_in _ _ _ _ Ec)) as [_ [k' [Hk' Hx]]].
+  destruct Hpf as (k & Hk & _ & Hv & Hcrc). destruct (framed_unique _ _ _ _ _ _ Hk Hk') as [E1 E2]. subst k' w.
+  unfold vs_hit_ok. destruct hck; [|reflexivity]. cbn [fst snd].
+  rewrite Hx, Hcrc, Hv, !N.eqb_refl. reflexivity.
 Qed.
 
 Lemma resolve_spec : forall G st e, vinvG G st -> entry_good (pin G (vs_active st)) e ->
   (forall v, te_orig e = Some v ->
-     fst (vs_resolve crc cfg st (te_enc e)) = Some v \/
-     (fst (vs_resolve crc cfg st (te_enc e)) = None /\ exists p, venc_classify (te_enc e) = EPtr p /\ ~ has_file st (vpt_file p))) /\
-  (forall f o w, In ((f, o), w) (snd (vs_resolve crc cfg st (te_enc e))) -> f <= vs_active st /\ exists k, framed (G f) o k w).
+     fst (vs_resolve crc cfg hck st (te_enc e)) = Some v \/
+     (fst (vs_resolve crc cfg hck st (te_enc e)) = None /\ exists p, venc_classify (te_enc e) = EPtr p /\ ~ has_file st (vpt_file p))) /\
+  cache_framed G (vs_active st) (snd (vs_resolve crc cfg hck st (te_enc e))).
 Proof.
   intros G st e Hinv Hg. pose proof (i_cache G st (proj2 Hinv)) as Dc. unfold entry_good in Hg. unfold vs_resolve.
   destruct (te_orig e) as [v|] eqn:Eo.
@@ -898,7 +929,7 @@ Proof.
 Qed.
 
 Lemma vinv_read : forall G st oe, vinvG G st ->
-  (forall e, oe = Some e -> entry_good (pin G (vs_active st)) e) -> vinvG G (vs_read_entry crc cfg st oe).
+  (forall e, oe = Some e -> entry_good (pin G (vs_active st)) e) -> vinvG G (vs_read_entry crc cfg hck st oe).
 Proof.
   intros G st oe Hinv He. unfold vs_read_entry. destruct oe as [e|]; [|exact Hinv].
   destruct (resolve_spec G st e Hinv (He e eq_refl)) as [_ Hc].
@@ -914,7 +945,7 @@ Proof.
 Qed.
 
 (* ------------------------------------------------------------------------------ every operation *)
-Lemma vinv_step : forall G st o st', vinvG G st -> vs_step crc cfg chk st o = Some st' ->
+Lemma vinv_step : forall G st o st', vinvG G st -> vs_step crc cfg chk hck st o = Some st' ->
   exists G', vinvG G' st' /\ fresh st st'.
 Proof.
   intros G st o st' Hinv H. destruct o as [now tid mem|ins tid out|keep|rid|rid|tid i|i|rid tid i]; cbn [vs_step] in H.
@@ -963,25 +994,25 @@ Proof.
     + intros t [].
     + intros e [].
     + intros rid ts t e [].
-    + intros f o v [].
+    + intros f o c v [].
 Qed.
 
-Lemma vinv_run : forall ops G st st', vinvG G st -> vs_run crc cfg chk ops st = Some st' ->
+Lemma vinv_run : forall ops G st st', vinvG G st -> vs_run crc cfg chk hck ops st = Some st' ->
   exists G', vinvG G' st' /\ fresh st st'.
 Proof.
   induction ops as [|o r IH]; intros G st st' Hinv H; cbn [vs_run] in H.
   - injection H as H. subst st'. exists G. split; [exact Hinv | apply fresh_refl].
-  - destruct (vs_step crc cfg chk st o) as [st1|] eqn:Es; [|discriminate].
+  - destruct (vs_step crc cfg chk hck st o) as [st1|] eqn:Es; [|discriminate].
     destruct (vinv_step G st o st1 Hinv Es) as (G1 & I1 & Hf1).
     destruct (IH G1 st1 st' I1 H) as (G' & I' & Hf'). exists G'. split; [exact I' | apply (fresh_trans st st1 st'); assumption].
 Qed.
 
-Lemma reachable_inv : forall st, reachable crc cfg chk st -> exists G, vinvG G st.
+Lemma reachable_inv : forall st, reachable crc cfg chk hck st -> exists G, vinvG G st.
 Proof. intros st [ops H]. destruct (vinv_run ops _ vs0 st vinv_vs0 H) as (G & I & _). exists G. exact I. Qed.
 
 (* ------------------------------------------------------------------------------ B1, B2 (reachable form), B4, ids *)
 Lemma live_resolves : forall G st e v, vinvG G st -> entry_good (live_ptr G st) e -> te_orig e = Some v ->
-  fst (vs_resolve crc cfg st (te_enc e)) = Some v.
+  fst (vs_resolve crc cfg hck st (te_enc e)) = Some v.
 Proof.
   intros G st e v Hinv Hg Ho.
   destruct (resolve_spec G st e Hinv (entry_good_mono _ _ _ (live_pin G st) Hg)) as [H _].
@@ -989,16 +1020,16 @@ Proof.
   exfalso. apply Hn. unfold entry_good in Hg. rewrite Ho, Hc in Hg. apply Hg.
 Qed.
 
-Lemma live_values_intact_in : forall st, reachable crc cfg chk st ->
-  (forall t e v, In t (vs_tables st) -> In e (tb_entries t) -> te_orig e = Some v -> fst (vs_resolve crc cfg st (te_enc e)) = Some v) /\
-  (forall e v, In e (vs_index st) -> te_orig e = Some v -> fst (vs_resolve crc cfg st (te_enc e)) = Some v).
+Lemma live_values_intact_in : forall st, reachable crc cfg chk hck st ->
+  (forall t e v, In t (vs_tables st) -> In e (tb_entries t) -> te_orig e = Some v -> fst (vs_resolve crc cfg hck st (te_enc e)) = Some v) /\
+  (forall e v, In e (vs_index st) -> te_orig e = Some v -> fst (vs_resolve crc cfg hck st (te_enc e)) = Some v).
 Proof.
   intros st Hr. destruct (reachable_inv st Hr) as [G Hinv]. split.
   - intros t e v Ht He Ho. destruct (i_tables G st (proj2 Hinv) t Ht) as [_ Hg]. apply (live_resolves G st e v Hinv (Hg e He) Ho).
   - intros e v He Ho. apply (live_resolves G st e v Hinv (i_index G st (proj2 Hinv) e He) Ho).
 Qed.
 
-Lemma live_pointers_have_files_in : forall st, reachable crc cfg chk st ->
+Lemma live_pointers_have_files_in : forall st, reachable crc cfg chk hck st ->
   forall e p, ((exists t, In t (vs_tables st) /\ In e (tb_entries t)) \/ In e (vs_index st)) ->
               te_orig e <> None -> vloc_pointer_of (te_enc e) = Some p ->
               exists f, In f (vs_files st) /\ vf_id f = vpt_file p.
@@ -1010,9 +1041,21 @@ Proof.
   apply pointer_of_classify in Hp. rewrite Hp in Hg. apply Hg.
 Qed.
 
-Lemma old_reader_never_wrong_in : forall st, reachable crc cfg chk st ->
+Lemma live_hits_pass_in : forall st, reachable crc cfg chk hck st ->
+  forall e p c, ((exists t, In t (vs_tables st) /\ In e (tb_entries t)) \/ In e (vs_index st)) ->
+                te_orig e <> None -> vloc_pointer_of (te_enc e) = Some p ->
+                vcache_get (vs_cache st) (vpt_file p) (vpt_offset p) = Some c -> vs_hit_ok hck p c = true.
+Proof.
+  intros st Hr e p c Hsrc Ho Hp Hc. destruct (reachable_inv st Hr) as [G Hinv].
+  assert (Hg : entry_good (live_ptr G st) e).
+  { destruct Hsrc as [(t & Ht & He)|He]; [destruct (i_tables G st (proj2 Hinv) t Ht) as [_ Hg]; apply Hg; exact He | apply (i_index G st (proj2 Hinv) e He)]. }
+  unfold entry_good in Hg. destruct (te_orig e) as [v|]; [|contradiction Ho; reflexivity].
+  apply pointer_of_classify in Hp. rewrite Hp in Hg. apply (hit_passes G st p v c Hinv (live_pin G st p v Hg) Hc).
+Qed.
+
+Lemma old_reader_never_wrong_in : forall st, reachable crc cfg chk hck st ->
   forall rid ts t e v, In (rid, ts) (vs_readers st) -> In t ts -> In e (tb_entries t) -> te_orig e = Some v ->
-    fst (vs_resolve crc cfg st (te_enc e)) = Some v \/ fst (vs_resolve crc cfg st (te_enc e)) = None.
+    fst (vs_resolve crc cfg hck st (te_enc e)) = Some v \/ fst (vs_resolve crc cfg hck st (te_enc e)) = None.
 Proof.
   intros st Hr rid ts t e v H1 H2 H3 Ho. destruct (reachable_inv st Hr) as [G Hinv].
   destruct (resolve_spec G st e Hinv (entry_good_mono _ _ _ (rptr_pin G st) (i_readers G st (proj2 Hinv) rid ts t e H1 H2 H3))) as [H _].
@@ -1020,7 +1063,7 @@ Proof.
 Qed.
 
 Lemma ids_never_reused_in : forall ops1 ops2 st1 st2,
-  vs_run crc cfg chk ops1 vs0 = Some st1 -> vs_run crc cfg chk ops2 st1 = Some st2 ->
+  vs_run crc cfg chk hck ops1 vs0 = Some st1 -> vs_run crc cfg chk hck ops2 st1 = Some st2 ->
   vs_next st1 <= vs_next st2 /\
   forall f, In f (vs_files st2) -> (exists f1, In f1 (vs_files st1) /\ vf_id f1 = vf_id f) \/ vs_next st1 <= vf_id f.
 Proof.
@@ -1029,9 +1072,9 @@ Proof.
   destruct (vinv_run ops2 G1 st1 st2 I1 H2) as (G2 & _ & [Hn Hf]). split; [exact Hn | exact Hf].
 Qed.
 
-Lemma old_reader_served_in : chk = true -> forall st, reachable crc cfg chk st ->
+Lemma old_reader_served_in : chk = true -> forall st, reachable crc cfg chk hck st ->
   forall rid ts t e v, In (rid, ts) (vs_readers st) -> In t ts -> In e (tb_entries t) -> te_orig e = Some v ->
-    fst (vs_resolve crc cfg st (te_enc e)) = Some v.
+    fst (vs_resolve crc cfg hck st (te_enc e)) = Some v.
 Proof.
   intros Hc st Hr rid ts t e v H1 H2 H3 Ho. destruct (reachable_inv st Hr) as [G Hinv].
   apply (live_resolves G st e v Hinv); [|exact Ho].
@@ -1124,9 +1167,9 @@ Proof. intros st H f Hin. apply H. apply cleanup_files_subset. exact Hin. Qed.
 Lemma all_synced_cleanup_rt : forall chk st, all_synced st -> all_synced (vs_cleanup_rt chk st).
 Proof. intros chk st H f Hin. apply H. apply (cleanup_rt_subset chk). exact Hin. Qed.
 
-Lemma all_synced_step : forall crc cfg chk st o st', all_synced st -> vs_step crc cfg chk st o = Some st' -> all_synced st'.
+Lemma all_synced_step : forall crc cfg chk hck st o st', all_synced st -> vs_step crc cfg chk hck st o = Some st' -> all_synced st'.
 Proof.
-  intros crc cfg chk st o st' Hs H. destruct o as [now tid mem|ins tid out|keep|rid|rid|tid i|i|rid tid i]; cbn [vs_step] in H.
+  intros crc cfg chk hck st o st' Hs H. destruct o as [now tid mem|ins tid out|keep|rid|rid|tid i|i|rid tid i]; cbn [vs_step] in H.
   - unfold vs_flush in H. destruct (flush_entries crc cfg now st mem) as [[st1 es]|] eqn:Ef; [|discriminate].
     injection H as H. subst st'. apply all_synced_cleanup_rt.
     assert (S1 : sync_but_active st1) by (apply (sba_flush_entries _ _ _ _ _ _ _ (fun f Hin _ => Hs f Hin) Ef)).
@@ -1148,34 +1191,214 @@ Proof.
   - injection H as H. subst st'. unfold vs_read_entry. destruct (entry_at (reader_tables rid (vs_readers st)) tid i); exact Hs.
 Qed.
 
-Theorem files_synced : forall crc cfg chk, files_synced_stmt crc cfg chk.
+Theorem files_synced : forall crc cfg chk hck, files_synced_stmt crc cfg chk hck.
 Proof.
-  intros crc cfg chk st [ops H].
+  intros crc cfg chk hck st [ops H].
   assert (Hs0 : all_synced vs0) by (intros f []).
-  assert (G : forall l s, all_synced s -> vs_run crc cfg chk l s = Some st -> all_synced st).
+  assert (G : forall l s, all_synced s -> vs_run crc cfg chk hck l s = Some st -> all_synced st).
   { induction l as [|o r IH]; intros s Hs Hr; cbn [vs_run] in Hr.
     - injection Hr as Hr. subst. exact Hs.
-    - destruct (vs_step crc cfg chk s o) as [s1|] eqn:Es; [|discriminate].
-      apply (IH s1 (all_synced_step _ _ _ _ _ _ Hs Es) Hr). }
+    - destruct (vs_step crc cfg chk hck s o) as [s1|] eqn:Es; [|discriminate].
+      apply (IH s1 (all_synced_step _ _ _ _ _ _ _ Hs Es) Hr). }
   apply (G ops vs0 Hs0). exact H.
 Qed.
 
+(* ------------------------------------------------------------------------------ D: damage (property C16, finding F41) *)
+Lemma vslice_length : forall f o n, length (vslice f o n) = n.
+Proof.
+  intros f o n. unfold vslice. rewrite app_length, repeat_length.
+  assert (H : (length (firstn n (skipn o f)) <= n)%nat) by apply firstn_le_length. lia.
+Qed.
+
+(* what the file path guarantees at level Full, on ANY bytes: the value has the pointer's value size and, with the key
+   read beside it, the pointer's checksum *)
+Opaque ELF ECL.
+Lemma vlog_read_full : forall crc f p v, vlog_read crc VLOG_CK_FULL f p = Some v ->
+  nlen v = vpt_vsize p /\ exists k, crc32u crc (k ++ v) = vpt_crc p.
+Proof.
+  intros crc f p v H. unfold vlog_read in H. cbv zeta in H.
+  set (kn := N.to_nat (vpt_ksize p)) in *. set (vn := N.to_nat (vpt_vsize p)) in *.
+  set (e := vslice f (N.to_nat (vpt_offset p)) (ELF + ELF + kn + vn + ECL)) in *.
+  destruct (negb (N.eqb (be_dec (firstn ELF e)) (vpt_ksize p)) || negb (N.eqb (be_dec (firstn ELF (skipn ELF e))) (vpt_vsize p))); [discriminate|].
+  destruct (negb (N.eqb VLOG_CK_FULL VLOG_CK_DISABLED) && negb (N.eqb (be_dec (firstn ECL (skipn (ELF + ELF + kn + vn) e))) (vpt_crc p))); [discriminate|].
+  rewrite N.eqb_refl in H. cbn [andb] in H.
+  destruct (N.eqb (crc32u crc (firstn kn (skipn (ELF + ELF) e) ++ firstn vn (skipn (ELF + ELF + kn) e))) (vpt_crc p)) eqn:E;
+    cbn [negb] in H; [|discriminate].
+  injection H as H. subst v. split.
+  - unfold nlen. rewrite firstn_length, skipn_length. unfold e. rewrite vslice_length.
+    replace (Nat.min vn (ELF + ELF + kn + vn + ECL - (ELF + ELF + kn))) with vn by lia.
+    unfold vn. apply Nnat.N2Nat.id.
+  - exists (firstn kn (skipn (ELF + ELF) e)). apply N.eqb_eq. exact E.
+Qed.
+Transparent ELF ECL.
+
+Section Damage.
+Variable crc : list byte -> N.
+Variable cfg : vcfg.
+Variable chk : bool.
+Variable hck : bool.
+Hypothesis FULL : cf_level cfg = VLOG_CK_FULL.
+
+(* the only fact about a damaged store: every cache entry's checksum is the checksum of its value under some key *)
+Definition cache_sound (c : vcache) : Prop := forall f o x w, In ((f, o), (x, w)) c -> exists k, crc32u crc (k ++ w) = x.
+
+Lemma get_file_sound : forall st p, cache_sound (vs_cache st) ->
+  cache_sound (snd (vs_get_file crc cfg st p)) /\
+  forall v, fst (vs_get_file crc cfg st p) = Some v -> get_passes_pointer_check crc p v.
+Proof.
+  intros st p Hs. unfold vs_get_file. destruct (find_file (vpt_file p) (vs_files st)) as [fl|].
+  - rewrite FULL. destruct (vlog_read crc VLOG_CK_FULL (vf_bytes fl) p) as [w|] eqn:Er; cbn [fst snd].
+    + destruct (vlog_read_full crc _ p w Er) as [Hl Hk]. split.
+      * intros f o x w' [E|Hin]; [|apply (Hs f o x w' Hin)]. injection E as E1 E2 E3 E4. subst f o x w'. exact Hk.
+      * intros v Hv. injection Hv as Hv. subst v. split; assumption.
+    + split; [exact Hs | intros v Hv; discriminate Hv].
+  - cbn [fst snd]. split; [exact Hs | intros v Hv; discriminate Hv].
+Qed.
+
+Lemma get_cache_sound : forall st p, cache_sound (vs_cache st) -> cache_sound (snd (vs_get crc cfg hck st p)).
+Proof.
+  intros st p Hs. unfold vs_get. destruct (vcache_get (vs_cache st) (vpt_file p) (vpt_offset p)) as [e|].
+  - destruct (vs_hit_ok hck p e); [exact Hs | apply (get_file_sound st p Hs)].
+  - apply (get_file_sound st p Hs).
+Qed.
+
+Lemma get_checked : hck = true -> forall st p v, cache_sound (vs_cache st) ->
+  fst (vs_get crc cfg hck st p) = Some v -> get_passes_pointer_check crc p v.
+Proof.
+  intros Hh st p v Hs H. unfold vs_get in H.
+  destruct (vcache_get (vs_cache st) (vpt_file p) (vpt_offset p)) as [[x w]|] eqn:Ec; [|apply (proj2 (get_file_sound st p Hs) v H)].
+  destruct (vs_hit_ok hck p (x, w)) eqn:Eh; [|apply (proj2 (get_file_sound st p Hs) v H)].
+  cbn [fst snd] in H. injection H as H. subst w.
+  unfold vs_hit_ok in Eh. rewrite Hh in Eh. cbn [fst snd] in Eh. apply andb_true_iff in Eh. destruct Eh as [E1 E2].
+  apply N.eqb_eq in E1. apply N.eqb_eq in E2. subst x. split; [exact E2|].
+  apply (Hs _ _ _ _ (vcache_get_in _ _ _ _ Ec)).
+Qed.
+
+Lemma resolve_cache_sound : forall st enc, cache_sound (vs_cache st) -> cache_sound (snd (vs_resolve crc cfg hck st enc)).
+Proof.
+  intros st enc Hs. unfold vs_resolve. destruct (venc_classify enc); [exact Hs | apply get_cache_sound; exact Hs | exact Hs].
+Qed.
+
+Lemma append_cache : forall now st k v st' p, vs_append crc cfg now st k v = Some (st', p) -> vs_cache st' = vs_cache st.
+Proof.
+  intros now st k v st' p H. unfold vs_append in H.
+  set (st1 := if vs_rotate_needed cfg st then vs_rotate cfg now st else st) in *.
+  assert (E1 : vs_cache st1 = vs_cache st) by (unfold st1; destruct (vs_rotate_needed cfg st); reflexivity).
+  destruct (find_file (vs_active st1) (vs_files st1)) as [f|]; [|discriminate].
+  destruct (fits ELF (nlen k) && fits ELF (nlen v) && vpointer_in_range (snd (vwriter_append crc (vs_active st1) (vf_bytes f) k v))); [|discriminate].
+  injection H as H _. subst st'. exact E1.
+Qed.
+
+Lemma flush_entries_cache : forall mem now st st' es, flush_entries crc cfg now st mem = Some (st', es) -> vs_cache st' = vs_cache st.
+Proof.
+  induction mem as [|[k [v|]] r IH]; intros now st st' es H; cbn [flush_entries] in H.
+  - injection H as H1 H2. subst. reflexivity.
+  - destruct (maybe_separate true (cf_threshold cfg) (vloc_encode (vloc_inline v))).
+    + destruct (flush_entries crc cfg now st r) as [[st2 es2]|] eqn:Er; [|discriminate].
+      injection H as H1 H2. subst. apply (IH _ _ _ _ Er).
+    + destruct (vs_append crc cfg now st k value) as [[st1 p]|] eqn:Ea; [|discriminate].
+      destruct (flush_entries crc cfg now st1 r) as [[st2 es2]|] eqn:Er; [|discriminate].
+      injection H as H1 H2. subst. rewrite (IH _ _ _ _ Er). apply (append_cache _ _ _ _ _ _ Ea).
+    + destruct (flush_entries crc cfg now st r) as [[st2 es2]|] eqn:Er; [|discriminate].
+      injection H as H1 H2. subst. apply (IH _ _ _ _ Er).
+  - destruct (flush_entries crc cfg now st r) as [[st2 es2]|] eqn:Er; [|discriminate].
+    injection H as H1 H2. subst. apply (IH _ _ _ _ Er).
+Qed.
+
+Lemma cleanup_rt_cache : forall st, vs_cache (vs_cleanup_rt chk st) = vs_cache st.
+Proof.
+  intros st. unfold vs_cleanup_rt. destruct (chk && negb (no_readers st)); [reflexivity|].
+  destruct (cleanup_same st) as (_ & _ & _ & Ec & _). exact Ec.
+Qed.
+
+Lemma read_entry_sound : forall st oe, cache_sound (vs_cache st) -> cache_sound (vs_cache (vs_read_entry crc cfg hck st oe)).
+Proof.
+  intros st oe Hs. unfold vs_read_entry. destruct oe as [e|]; [|exact Hs].
+  cbn [set_cache vs_cache]. apply resolve_cache_sound. exact Hs.
+Qed.
+
+Lemma step_sound : forall st o st', cache_sound (vs_cache st) -> vs_step crc cfg chk hck st o = Some st' -> cache_sound (vs_cache st').
+Proof.
+  intros st o st' Hs H. destruct o as [now tid mem|ins tid out|keep|rid|rid|tid i|i|rid tid i]; cbn [vs_step] in H.
+  - unfold vs_flush in H. destruct (flush_entries crc cfg now st mem) as [[st1 es]|] eqn:Ef; [|discriminate].
+    injection H as H. subst st'. rewrite cleanup_rt_cache. cbn [set_index set_tables vs_cache].
+    change (if VLOG_FLUSH_SYNCS_ACTIVE then vs_sync_active st1 else st1) with (vs_sync_active st1).
+    cbn [vs_sync_active set_files vs_cache]. rewrite (flush_entries_cache _ _ _ _ _ Ef). exact Hs.
+  - unfold vs_compact in H.
+    destruct (negb (forallb (fun i => existsb (fun t => N.eqb (tb_id t) i) (vs_tables st)) ins)); [discriminate|].
+    destruct (pick_entries (flat_map tb_entries (filter (is_input ins) (vs_tables st))) out) as [es|]; [|discriminate].
+    injection H as H. subst st'. rewrite cleanup_rt_cache. exact Hs.
+  - injection H as H. subst st'. unfold vs_reopen.
+    match goal with |- cache_sound (vs_cache (vs_cleanup ?s)) => destruct (cleanup_same s) as (_ & _ & _ & Ec & _); rewrite Ec end.
+    cbn [vs_cache]. destruct keep; [exact Hs | intros f o x w []].
+  - injection H as H. subst st'. exact Hs.
+  - injection H as H. subst st'. exact Hs.
+  - injection H as H. subst st'. apply read_entry_sound. exact Hs.
+  - injection H as H. subst st'. apply read_entry_sound. exact Hs.
+  - injection H as H. subst st'. apply read_entry_sound. exact Hs.
+Qed.
+
+Lemma ds_step_sound : forall st d st', cache_sound (vs_cache st) -> ds_step crc cfg chk hck st d = Some st' -> cache_sound (vs_cache st').
+Proof.
+  intros st d st' Hs H. destruct d as [o|fs a n|p]; cbn [ds_step] in H.
+  - apply (step_sound st o st' Hs H).
+  - injection H as H. subst st'. exact Hs.
+  - injection H as H. subst st'. cbn [set_cache vs_cache]. apply get_cache_sound. exact Hs.
+Qed.
+
+Lemma ds_run_sound : forall ds st st', cache_sound (vs_cache st) -> ds_run crc cfg chk hck ds st = Some st' -> cache_sound (vs_cache st').
+Proof.
+  induction ds as [|d r IH]; intros st st' Hs H; cbn [ds_run] in H.
+  - injection H as H. subst st'. exact Hs.
+  - destruct (ds_step crc cfg chk hck st d) as [st1|] eqn:Es; [|discriminate].
+    apply (IH st1 st' (ds_step_sound st d st1 Hs Es) H).
+Qed.
+
+Lemma dreachable_sound : forall st, dreachable crc cfg chk hck st -> cache_sound (vs_cache st).
+Proof. intros st [ds H]. apply (ds_run_sound ds vs0 st); [intros f o x w [] | exact H]. Qed.
+
+Lemma damaged_get_checked_in : hck = true -> forall st, dreachable crc cfg chk hck st ->
+  forall p v, fst (vs_get crc cfg hck st p) = Some v -> get_passes_pointer_check crc p v.
+Proof. intros Hh st Hr p v H. apply (get_checked Hh st p v (dreachable_sound st Hr) H). Qed.
+
+Lemma damaged_resolve_checked_in : hck = true -> forall st, dreachable crc cfg chk hck st ->
+  forall enc p v, vloc_pointer_of enc = Some p -> fst (vs_resolve crc cfg hck st enc) = Some v -> get_passes_pointer_check crc p v.
+Proof.
+  intros Hh st Hr enc p v Hp H. apply pointer_of_classify in Hp. unfold vs_resolve in H. rewrite Hp in H.
+  apply (damaged_get_checked_in Hh st Hr p v H).
+Qed.
+
+Lemma damaged_get_written_or_collision_in : hck = true -> forall st, dreachable crc cfg chk hck st ->
+  forall p k0 v0, issued_for crc p k0 v0 ->
+    fst (vs_get crc cfg hck st p) = Some v0 \/ fst (vs_get crc cfg hck st p) = None \/
+    exists v, fst (vs_get crc cfg hck st p) = Some v /\ collision_with crc k0 v0 v.
+Proof.
+  intros Hh st Hr p k0 v0 [Hv Hc].
+  destruct (fst (vs_get crc cfg hck st p)) as [v|] eqn:Eg; [|right; left; reflexivity].
+  destruct (damaged_get_checked_in Hh st Hr p v Eg) as [Hl [k Hk]].
+  destruct (list_eq_dec N.eq_dec v v0) as [E|Hne]; [left; subst; reflexivity|].
+  right. right. exists v. split; [reflexivity|]. split; [exact Hne|]. split; [congruence|]. exists k. congruence.
+Qed.
+End Damage.
+
 (* ------------------------------------------------------------------------------ the statements of VlogSpec.v *)
-Theorem live_values_intact : forall crc cfg chk, live_values_intact_stmt crc cfg chk.
-Proof. intros crc cfg chk H. apply (live_values_intact_in crc cfg chk H). Qed.
-Theorem live_pointers_have_files : forall crc cfg chk, live_pointers_have_files_stmt crc cfg chk.
-Proof. intros crc cfg chk H. apply (live_pointers_have_files_in crc cfg chk H). Qed.
-Theorem old_reader_never_wrong : forall crc cfg chk, old_reader_never_wrong_stmt crc cfg chk.
-Proof. intros crc cfg chk H. apply (old_reader_never_wrong_in crc cfg chk H). Qed.
-Theorem ids_never_reused : forall crc cfg chk, ids_never_reused_stmt crc cfg chk.
-Proof. intros crc cfg chk H. apply (ids_never_reused_in crc cfg chk H). Qed.
+Theorem live_values_intact : forall crc cfg chk hck, live_values_intact_stmt crc cfg chk hck.
+Proof. intros crc cfg chk hck H. apply (live_values_intact_in crc cfg chk hck H). Qed.
+Theorem live_pointers_have_files : forall crc cfg chk hck, live_pointers_have_files_stmt crc cfg chk hck.
+Proof. intros crc cfg chk hck H. apply (live_pointers_have_files_in crc cfg chk hck H). Qed.
+Theorem old_reader_never_wrong : forall crc cfg chk hck, old_reader_never_wrong_stmt crc cfg chk hck.
+Proof. intros crc cfg chk hck H. apply (old_reader_never_wrong_in crc cfg chk hck H). Qed.
+Theorem ids_never_reused : forall crc cfg chk hck, ids_never_reused_stmt crc cfg chk hck.
+Proof. intros crc cfg chk hck H. apply (ids_never_reused_in crc cfg chk hck H). Qed.
+Theorem live_hits_pass : forall crc cfg chk hck, live_hits_pass_stmt crc cfg chk hck.
+Proof. intros crc cfg chk hck H. apply (live_hits_pass_in crc cfg chk hck H). Qed.
 
 (* B4, positive: with the test at the run-time call sites every open reader is served.  The flag is the GENERATED one:
    the proof needs VLOG_CLEANUP_CHECKS_READERS to be (convertible to) true *)
 Theorem old_reader_served : old_reader_served_stmt.
 Proof.
-  intros H crc cfg. unfold old_reader_safe_stmt.
-  apply (old_reader_served_in crc cfg VLOG_CLEANUP_CHECKS_READERS H eq_refl).
+  intros H crc cfg hck. unfold old_reader_safe_stmt.
+  apply (old_reader_served_in crc cfg VLOG_CLEANUP_CHECKS_READERS hck H eq_refl).
 Qed.
 
 Theorem cleanup_runs_without_readers : cleanup_runs_without_readers_stmt.
@@ -1185,6 +1408,16 @@ Proof.
   intros st H. unfold vs_cleanup_rt, no_readers. destruct (vs_readers st); [contradiction H; reflexivity | reflexivity].
 Qed.
 
+(* D, positive: the GENERATED cache rule.  The proof needs VLOG_CACHE_HIT_CHECKED to be (convertible to) true: on a tree
+   with the repair of F41 undone this theorem does not build *)
+Theorem damaged_reads_checked : damaged_reads_checked_stmt.
+Proof.
+  intros crc cfg chk. split; [|split].
+  - intros F. apply (damaged_get_checked_in crc cfg chk VLOG_CACHE_HIT_CHECKED F eq_refl).
+  - intros F. apply (damaged_resolve_checked_in crc cfg chk VLOG_CACHE_HIT_CHECKED F eq_refl).
+  - intros F. apply (damaged_get_written_or_collision_in crc cfg chk VLOG_CACHE_HIT_CHECKED F eq_refl).
+Qed.
+
 (* ------------------------------------------------------------------------------ B4: the rule before the repair (regression record) *)
 Definition w_crc (d : list byte) : N := 0.
 Definition w_cfg : vcfg := {| cf_threshold := 2; cf_max := 40; cf_level := 1; cf_index := false |}.
@@ -1192,7 +1425,7 @@ Definition w_flush1 : vop := VFlush 0 10 [([107], Some [7; 7; 7; 7])].
 Definition w_flush2 : vop := VFlush 0 11 [([107], Some [6; 6; 6])].
 Definition w_out : list (list byte * list byte) :=
   Eval vm_compute in
-    match vs_run w_crc w_cfg false [w_flush1; w_flush2] vs0 with
+    match vs_run w_crc w_cfg false true [w_flush1; w_flush2] vs0 with
     | Some s => match find_table 11 (vs_tables s) with Some t => map (fun e => (te_key e, te_enc e)) (tb_entries t) | None => [] end
     | None => []
     end.
@@ -1200,23 +1433,66 @@ Definition w_out : list (list byte * list byte) :=
    only the newer version.  Without the test (chk = false) its clean-up removes file 1 and the reader's entry of table 10
    no longer resolves; with the test (w_st_chk) file 1 stays until the reader has gone and the next flush runs (w_st_after) *)
 Definition w_ops : list vop := [w_flush1; w_flush2; VReaderOpen 1; VCompact [10; 11] 12 w_out].
-Definition w_st : vstate := Eval vm_compute in match vs_run w_crc w_cfg false w_ops vs0 with Some s => s | None => vs0 end.
+Definition w_st : vstate := Eval vm_compute in match vs_run w_crc w_cfg false true w_ops vs0 with Some s => s | None => vs0 end.
 Definition w_ts : list vtable := Eval vm_compute in reader_tables 1 (vs_readers w_st).
 Definition w_t : vtable := Eval vm_compute in match find_table 10 w_ts with Some t => t | None => {| tb_id := 0; tb_entries := []; tb_oldest := 0 |} end.
 Definition w_e : tentry := Eval vm_compute in match tb_entries w_t with e :: _ => e | [] => {| te_key := []; te_enc := []; te_orig := None |} end.
-Definition w_st_chk : vstate := Eval vm_compute in match vs_run w_crc w_cfg true w_ops vs0 with Some s => s | None => vs0 end.
+Definition w_st_chk : vstate := Eval vm_compute in match vs_run w_crc w_cfg true true w_ops vs0 with Some s => s | None => vs0 end.
 Definition w_ops_after : list vop := w_ops ++ [VReaderClose 1; VFlush 0 13 [([108], Some [5; 5; 5])]].
-Definition w_st_after : vstate := Eval vm_compute in match vs_run w_crc w_cfg true w_ops_after vs0 with Some s => s | None => vs0 end.
+Definition w_st_after : vstate := Eval vm_compute in match vs_run w_crc w_cfg true true w_ops_after vs0 with Some s => s | None => vs0 end.
 
 Theorem old_reader_unprotected_without_check : old_reader_unprotected_without_check_stmt.
 Proof.
-  exists w_crc, w_cfg. intros Hsafe.
-  assert (Hrun : vs_run w_crc w_cfg false w_ops vs0 = Some w_st) by (vm_compute; reflexivity).
-  assert (Hc : fst (vs_resolve w_crc w_cfg w_st (te_enc w_e)) = Some [7; 7; 7; 7]).
+  exists w_crc, w_cfg. intros hck Hsafe.
+  assert (Hrun : vs_run w_crc w_cfg false hck w_ops vs0 = Some w_st) by (destruct hck; vm_compute; reflexivity).
+  assert (Hc : fst (vs_resolve w_crc w_cfg hck w_st (te_enc w_e)) = Some [7; 7; 7; 7]).
   { apply (Hsafe w_st (ex_intro _ w_ops Hrun) 1 w_ts w_t w_e).
     - vm_compute. left. reflexivity.
     - vm_compute. left. reflexivity.
     - vm_compute. left. reflexivity.
     - vm_compute. reflexivity. }
-  vm_compute in Hc. discriminate Hc.
+  destruct hck; vm_compute in Hc; discriminate Hc.
+Qed.
+
+(* ------------------------------------------------------------------------------ D: the cache rule before the repair (regression record of F41) *)
+(* checksum = the last byte: two values of the same length that end differently never collide, under any key *)
+Definition x_crc (d : list byte) : N := last d 0.
+Definition x_cfg : vcfg := {| cf_threshold := 0; cf_max := 4096; cf_level := VLOG_CK_FULL; cf_index := false |}.
+Definition x_k0 : list byte := [107; 48].
+Definition x_k2 : list byte := [107; 50].
+Definition x_flush1 : vop := VFlush 0 10 [(x_k0, Some [7; 7; 7]); ([107; 49], Some [8; 8; 8; 8; 8])].
+Definition x_flush2 : vop := VFlush 0 11 [(x_k2, Some [9; 9; 9])].
+Definition x_st1 : vstate := Eval vm_compute in match vs_run x_crc x_cfg true true [x_flush1] vs0 with Some s => s | None => vs0 end.
+(* the damage: file 1 keeps its header (31 bytes) only *)
+Definition x_cut : dop := Eval vm_compute in d_cut 1 31 x_st1.
+(* flush (k0, k1 -> file 1 at offsets 31, 48), the cut, reopen (the writer continues at offset 31), flush (k2 -> file 1 at
+   offset 31), a read of k2 through the new table (fills the cache at (1, 31)); then the OLD pointer of k0 is read *)
+Definition x_ds : list dop := [DOp x_flush1; x_cut; DOp (VReopen false); DOp x_flush2; DOp (VReadLive 11 0)].
+Definition x_st (hck : bool) : vstate := match ds_run x_crc x_cfg true hck x_ds vs0 with Some s => s | None => vs0 end.
+Definition x_st_old : vstate := Eval vm_compute in x_st false.
+Definition x_st_new : vstate := Eval vm_compute in x_st true.
+Definition x_ptr (tid : N) (st : vstate) : vpointer :=
+  match entry_at (vs_tables st) tid 0 with
+  | Some e => match vloc_pointer_of (te_enc e) with Some p => p | None => Build_vpointer 0 0 0 0 0 0 end
+  | None => Build_vpointer 0 0 0 0 0 0
+  end.
+Definition x_p0 : vpointer := Eval vm_compute in x_ptr 10 x_st_old.
+Definition x_p2 : vpointer := Eval vm_compute in x_ptr 11 x_st_old.
+
+Lemma x_crc_9 : forall k, crc32u x_crc (k ++ [9; 9; 9]) = 9.
+Proof.
+  intros k. unfold crc32u, x_crc. change (k ++ [9; 9; 9]) with (k ++ [9; 9] ++ [9]). rewrite app_assoc, last_last.
+  vm_compute. reflexivity.
+Qed.
+
+Theorem cache_unchecked_serves_other_entry : cache_unchecked_serves_other_entry_stmt.
+Proof.
+  exists x_crc, x_cfg. split; [reflexivity|]. intros chk Hstmt.
+  assert (Hrun : ds_run x_crc x_cfg chk false x_ds vs0 = Some x_st_old) by (destruct chk; vm_compute; reflexivity).
+  assert (Hiss : issued_for x_crc x_p0 x_k0 [7; 7; 7]) by (split; vm_compute; reflexivity).
+  assert (Hg : fst (vs_get x_crc x_cfg false x_st_old x_p0) = Some [9; 9; 9]) by (vm_compute; reflexivity).
+  destruct (Hstmt eq_refl x_st_old (ex_intro _ x_ds Hrun) x_p0 x_k0 [7; 7; 7] Hiss) as [H|[H|(v & Hv & _ & _ & k & Hk)]].
+  - rewrite Hg in H. discriminate H.
+  - rewrite Hg in H. discriminate H.
+  - rewrite Hg in Hv. injection Hv as Hv. subst v. rewrite x_crc_9 in Hk. vm_compute in Hk. discriminate Hk.
 Qed.
